@@ -7,14 +7,14 @@ from .. import core, steps, values
 ID = 'C12'
 LEVEL = 'exploration'
 RULE = ('case = parametrised input family F(n): (nest) a wrapper recipe - 1..4 wrappers from {list, pair-list, tuple, dict '
-        'value, dict with tuple key, frozenset, SimpleNamespace arg, pretty_call arg, list subclass, OrderedDict, comment, '
+        'value, dict with tuple key, frozenset, SimpleNamespace arg, pretty_call arg, list / dict / tuple subclass, OrderedDict, defaultdict, deque, ChainMap, mappingproxy, namedtuple, exception args, an object with a registered printer and __repr__ = pretty_repr, an object printed through repr(), a dataclass / attrs instance holding the rest in a default-factory field (extras installed), comment, '
         'trailing comment} applied cyclically n times to a leaf (int, word string, empty string, long string); (wide) n '
         'siblings of a small nested shape in a list / dict / tuple / set; (str) strings of n words / n unbreakable chars / '
         'n escapes, str and bytes, at a fixed width, top level and nested; (ring) a cycle of n dicts / lists whose '
         'back-reference is plain or commented. Fixed families from the statement and every ordered pair/triple (up to rotation) over {list, dict value, tuple, '
         'call, comment, trailing comment} are enumerated; '
         'recipes are drawn by Hypothesis. Oracle: steps(x) = sys.monitoring LINE events inside the package during one '
-        'pformat; for n = n0, 2n0, 4n0, 8n0 (n0 = 8 nesting / 50 length) require steps(2n) / steps(n) <= 12; every run is '
+        'pformat; for n = n0, 2n0, 4n0, 8n0 (n0 = 8 nesting / 50 length) require steps(2n) <= 12 * steps(n) + 10^4; every run is '
         'capped at 12*steps(previous) + 10^4 events, the first at 4*10^5 for nestings and 3.2*10^6 for the n0=50 families (the largest nesting first point of any family on the unchanged tree is about 2*10^5) (termination is decided by the same cap, never by '
         'wall time). Points that hit CPython\'s recursion limit are skipped. non-trivial = steps(n0) >= 1000 and at least '
         'two doublings measured; distinct by family hash')
@@ -25,7 +25,51 @@ BUDGET = {'quick': {'random': 64, 'shards': 16, 'shrink_s': 5}, 'thorough': {'ra
 
 B = 12
 FIRST_CAP = 4 * 10 ** 5
-WRAPPERS = ['list', 'pairlist', 'tuple', 'dictval', 'dictkeytuple', 'fset', 'ns', 'box', 'sublist', 'odict', 'comment', 'tcomment']
+WRAPPERS = ['list', 'pairlist', 'tuple', 'dictval', 'dictkeytuple', 'fset', 'ns', 'box', 'sublist', 'odict', 'comment', 'tcomment',
+            'subdict', 'subtuple', 'prnode', 'plainobj', 'dc', 'attrsobj', 'ddict', 'deque', 'chainmap', 'mproxy', 'ntuple', 'exc']
+DICT_LIKE = ('dictval', 'dictkeytuple', 'subdict', 'ddict', 'chainmap', 'mproxy')
+NT = collections.namedtuple('NT', 'a b')
+
+
+class PRNode:
+    """registered printer + the documented idiom __repr__ = pretty_repr"""
+    from prettyprinter import pretty_repr as __repr__
+
+    def __init__(self, x):
+        self.x = x
+
+
+class PlainObj:
+    """no printer: printed through repr(), which asks its content for repr()"""
+
+    def __init__(self, x):
+        self.x = x
+
+    def __repr__(self):
+        return 'PlainObj(%r)' % (self.x,)
+
+
+_ready = {}
+
+
+def _classes():
+    if not _ready:
+        import dataclasses
+        import warnings
+        import attr
+        from prettyprinter import register_pretty, pretty_call, install_extras
+        with warnings.catch_warnings():
+            warnings.simplefilter('ignore')
+            install_extras(['dataclasses', 'attrs'], raise_on_error=True)
+        register_pretty(PRNode)(lambda v, ctx: pretty_call(ctx, 'PRNode', v.x))
+
+        @dataclasses.dataclass
+        class DC:
+            label: int = 0
+            children: list = dataclasses.field(default_factory=list)
+        _ready['dc'] = DC
+        _ready['attrs'] = attr.make_class('AT', {'label': attr.ib(default=0), 'children': attr.ib(factory=list)})
+    return _ready
 LEAVES = [['int', 1], ['str', 'word'], ['str', ''], ['str', 'lorem ipsum dolor sit amet ' * 3], ['bytes', '']]
 
 
@@ -55,6 +99,31 @@ def wrap(kind, x, i):
         return vtypes.SUBCLASSES[('list', 'plain')]([x])
     if kind == 'odict':
         return collections.OrderedDict([('k', x)])
+    if kind == 'subdict':
+        return vtypes.SUBCLASSES[('dict', 'plain')]({'k': x})
+    if kind == 'subtuple':
+        return vtypes.SUBCLASSES[('tuple', 'plain')]((x,))
+    if kind == 'prnode':
+        _classes()
+        return PRNode(x)
+    if kind == 'plainobj':
+        return PlainObj(x)
+    if kind == 'dc':
+        return _classes()['dc'](i, [x])
+    if kind == 'attrsobj':
+        return _classes()['attrs'](i, [x])
+    if kind == 'ddict':
+        return collections.defaultdict(list, {'k': x})
+    if kind == 'deque':
+        return collections.deque([x], maxlen=3 if i % 2 else None)
+    if kind == 'chainmap':
+        return collections.ChainMap({'k': x}, {'z': i})
+    if kind == 'mproxy':
+        return types.MappingProxyType({'k': x})
+    if kind == 'ntuple':
+        return NT(x, i)
+    if kind == 'exc':
+        return ValueError(x, i)
     if kind == 'comment':
         return comment(x, 'note %d on this level' % i)
     if kind == 'tcomment':
@@ -68,7 +137,8 @@ def build_family(case, n):
         x = values.build(case['leaf'])
         ws = case['wrappers']
         for i in range(n):
-            x = wrap(ws[i % len(ws)], x, i)
+            # counted from the outside, so that the outermost wrapper is ws[0] at every n
+            x = wrap(ws[(n - 1 - i) % len(ws)], x, i)
         return x
     if k == 'wide':
         shape = case['shape']
@@ -129,7 +199,8 @@ def d19(case):
         return False
     # trailing comments are transparent here: comment(trailing_comment(x)) as a dict value is still a commented value
     ws = [w for w in case['wrappers'] if w != 'tcomment']
-    return any(ws[i] == 'comment' and ws[(i + 1) % len(ws)] in ('dictval', 'dictkeytuple') for i in range(len(ws)))
+    # (ws[0] is the outermost wrapper, ws[i + 1] sits inside ws[i]; every wrapper printed through the dict printer counts)
+    return any(ws[i] in DICT_LIKE and ws[(i + 1) % len(ws)] == 'comment' for i in range(len(ws)))
 
 
 def n0_of(case):
@@ -142,7 +213,12 @@ def enumerate_cases(tier):
     for ws in (['list'], ['dictval'], ['tuple'], ['fset'], ['box'], ['ns'], ['odict'], ['sublist'], ['pairlist'],
                ['dictkeytuple'], ['comment', 'list'], ['comment', 'pairlist'], ['list', 'tcomment'],
                ['comment', 'tuple', 'dictkeytuple'], ['dictval', 'comment', 'list'], ['tcomment', 'dictval'],
-               ['comment', 'box'], ['list', 'dictval', 'tuple', 'ns']):
+               ['comment', 'box'], ['list', 'dictval', 'tuple', 'ns'],
+               # subclass instances, user classes (registered printer with __repr__ = pretty_repr, alone and around objects
+               # printed through repr()), dataclass / attrs trees through a default-factory field, stdlib containers
+               ['subdict'], ['subtuple'], ['subdict', 'sublist'], ['tcomment', 'subdict'], ['prnode'], ['plainobj'], ['prnode', 'plainobj'],
+               ['prnode', 'list', 'plainobj'], ['dc'], ['attrsobj'], ['dc', 'attrsobj'], ['comment', 'dc'], ['ddict'], ['deque'],
+               ['chainmap'], ['mproxy'], ['ntuple'], ['exc'], ['ntuple', 'deque', 'ddict'], ['comment', 'mproxy', 'list']):
         for leaf in (LEAVES[0], LEAVES[2], LEAVES[3]):
             yield {'kind': 'nest', 'wrappers': ws, 'leaf': leaf, 'width': w}
     # every ordered pair and triple over a reduced wrapper set (comments next to every container / call kind)
@@ -238,7 +314,8 @@ def oracle(case):
             return core.viol('no-termination-within-budget', detail, labels)
         return core.viol('super-polynomial-growth', detail, labels)
     ratios = [measured[i + 1][1] / max(1, measured[i][1]) for i in range(len(measured) - 1)]
-    if any(r > B for r in ratios):
+    # (the same allowance as the cap of each run: a doubling may cost B times the work plus 10^4 lines)
+    if any(measured[i + 1][1] > B * measured[i][1] + 10 ** 4 for i in range(len(measured) - 1)):
         if is_d19:
             return core.known('D19', detail, labels=labels)
         return core.viol('super-polynomial-growth', detail, labels)
